@@ -103,8 +103,9 @@ func c32Name(id uint32) string { return fmt.Sprintf("r%d", id) }
 // with "compound-": their SIMPLE shards are called compound-..._v16.00000.zoekt
 // and cleanup.go, which recognises compound shards by that file name prefix,
 // deletes / tombstones them instead of moving them (finding
-// c32KnownCompoundPrefix); off by default.
-var c32CompoundPrefix = os.Getenv("VERIF_C32_COMPOUND_PREFIX") == "1"
+// c32KnownCompoundPrefix, listed in known_findings.json); on by default,
+// VERIF_C32_COMPOUND_PREFIX=0 leaves them out.
+var c32CompoundPrefix = os.Getenv("VERIF_C32_COMPOUND_PREFIX") != "0"
 
 const c32KnownCompoundPrefix = "C32-repository-name-starts-with-compound-dash"
 
@@ -120,7 +121,7 @@ var c32NameStyles = []string{
 	"contains-_v16",     // r3_v16
 	"contains-.zoekt",   // r3.zoekt
 	"shard-like",        // r3_v16.00000.zoekt
-	"compound-prefix",   // compound-r3 (only with VERIF_C32_COMPOUND_PREFIX=1)
+	"compound-prefix",   // compound-r3 (known finding; not with VERIF_C32_COMPOUND_PREFIX=0)
 }
 
 func c32StyledName(style string, id uint32) string {
@@ -981,7 +982,7 @@ func TestVerif_C32(t *testing.T) {
 		"input domain: compound shards only together with shard merging; a repository is alive in at most one compound shard; alive in a compound and in simple shards at once only in the 25% of directories modelling a crash between writing new shards and tombstoning the old copy; one repository id per name",
 		"the trash is judged per repository as cleanup_test.go documents: a repository's trash entry is old as soon as one of its shards is older than 24h (strictly)",
 		"'older than 24 hours' = in the trash for 24 hours (cleanup's doc comment): entries present from the start are dated by their mtime, entries trashed by an earlier round by the harness's own record of that round's now; a shard moved to the trash must carry an mtime not before that round's now (cleanup_test.go expects exactly now), since the mtime is what the next cleanup judges",
-		"repository names starting with \"compound-\" are excluded (VERIF_C32_COMPOUND_PREFIX=1 includes them): their simple shards are named compound-..._v16.00000.zoekt and cleanup.go takes them for compound shards",
+		"repository names starting with \"compound-\" are generated too: their simple shards are named compound-..._v16.00000.zoekt and cleanup.go takes them for compound shards (known finding C32-repository-name-starts-with-compound-dash; discrepancies in directories holding such a name are attributed to it)",
 		"compound shards are recognised in the inventory by format version / member count, not by file name",
 		"repositories whose alive shards disagree on the name may be deleted outright whether assigned or not (documented in cleanup.go)",
 		"an assigned repository that is only present as an old (>24h) trash entry need not be restored; a tombstoned assigned repository must be revived (cleanup.go: 'Restore deleted or tombstoned repos')",
